@@ -26,6 +26,10 @@ func (c *corruptor) headerLists() {
 		return fs
 	}
 	emit := func(name string, fs []hdrFields) {
+		if c.skip() {
+			c.out = append(c.out, cand{name: name, group: "headers", signed: "n/a"})
+			return
+		}
 		var hs []*block.Header
 		for _, f := range fs {
 			b := mkBlock(f, nil)
@@ -35,6 +39,9 @@ func (c *corruptor) headerLists() {
 	}
 	// relink re-signs header j after a change and re-links/re-signs everything after it
 	relink := func(fs []hdrFields, j int) {
+		if c.skip() {
+			return
+		}
 		for i := j; i < len(fs); i++ {
 			if i > j {
 				fs[i].PrevHash = mkBlock(fs[i-1], nil).Hash()
